@@ -285,6 +285,11 @@ func step3(in []kit.Tri, rep0 *kit.TopoReport, op op3, o *kit.Obs) (out []kit.Tr
 
 	case "flip":
 		what = "FlipDelaunay"
+		// the new faces are oriented by comparing normals: a face without area (three colinear vertices, as a
+		// blur can produce) has no normal and is a degenerate input
+		if minAspect(in) < 1e-9 {
+			return nil, "degenerate:zero-area-face", nil
+		}
 		if kit.Excluded("flip-delaunay-existing-edge") && flipRisk(in) {
 			// known finding: an edge is flipped although its two apexes are already joined by an edge; the
 			// damaged mesh can then keep the flip loop busy for ever (a face with a repeated vertex has NaN
@@ -532,6 +537,20 @@ func flippedOntoExistingEdge(ts []kit.Tri) bool {
 	return false
 }
 
+// minAspect returns the smallest 2*area/longest^2 over the faces (0 for a face without area or extent).
+func minAspect(ts []kit.Tri) float64 {
+	m := math.Inf(1)
+	for _, t := range ts {
+		l := math.Max(t[0].Dist(t[1]), math.Max(t[1].Dist(t[2]), t[2].Dist(t[0])))
+		a := t[1].Sub(t[0]).Cross(t[2].Sub(t[0])).Norm() / (l * l)
+		if !(a > 0) {
+			return 0
+		}
+		m = math.Min(m, a)
+	}
+	return m
+}
+
 func pow4(n int) int {
 	r := 1
 	for i := 0; i < n; i++ {
@@ -621,6 +640,12 @@ func flatBand(in []kit.Tri, eps float64) (bool, int) {
 
 func stepSubdivider(in []kit.Tri, rep0 *kit.TopoReport, op op3, o *kit.Obs, mesh *model3d.Mesh, size float64) (out []kit.Tri, stop string, err error) {
 	what := "Subdivider.Subdivide"
+	// the pieces of a face are oriented like the face by comparing normals: a face without area (three colinear
+	// vertices to rounding, as a blur can produce) has no normal and is a degenerate input.  The normal of a
+	// face with 2*area/longest^2 = a is known to a relative error of ~1e-16/a.
+	if minAspect(in) < 1e-9 {
+		return nil, "degenerate:zero-area-face", nil
+	}
 	im, _ := index(in)
 	es, _ := im.edges()
 	var lens []float64
